@@ -204,6 +204,10 @@ def compile_cli(src, argv=(), name="p", timeout=120):
         for ext in ("h", "c"):
             fo = [x for x in os.listdir(d) if x.endswith("." + ext)]
             outs[ext] = open(os.path.join(d, fo[0]), encoding="utf-8", errors="surrogateescape").read() if len(fo) == 1 else None
-        return (r.returncode, outs["h"], outs["c"], (r.stdout + r.stderr)[-400:])
+        text = r.stdout + r.stderr
+        tail = text[-400:]
+        if "Traceback (most recent call last)" in text and "Traceback" not in tail:
+            tail = "Traceback ... " + tail[-380:]
+        return (r.returncode, outs["h"], outs["c"], tail)
     finally:
         shutil.rmtree(d, ignore_errors=True)
